@@ -76,12 +76,16 @@ def minLsbLoop : List Int → Option (List Rect) → Bool → Int → Outcome In
     if e.isZero then minLsbLoop ls (some es) first cur
     else minLsbLoop ls (some es) false (if first || l < cur then l else cur)
 
-/-- hmtx.go:189-204, `MinRightSideBearing`: `rsb := info.Widths[i] - ext.URx` in `int16` -/
+/-- Go `funit.Int16(min(max(x, math.MinInt16), math.MaxInt16))` -/
+def clamp16 (x : Int) : Int := if x < -32768 then -32768 else if x > 32767 then 32767 else x
+
+/-- hmtx.go:189-207, `MinRightSideBearing` (after repair: `rsb := int(w) - int(ext.URx)` is
+computed and minimised in `int`; the result is clamped to int16 by the caller) -/
 def minRsbLoop : List Int → List Rect → Bool → Int → Int
   | w :: ws, e :: es, first, cur =>
     if e.isZero then minRsbLoop ws es first cur
     else
-      let rsb := wrap16 (w - e.urx)
+      let rsb := w - e.urx
       minRsbLoop ws es false (if first || rsb < cur then rsb else cur)
   | _, _, _, cur => cur
 
@@ -143,7 +147,7 @@ def derive (info : Info) (rise run : Int) : Outcome (Hhea × Option (List Int)) 
     match (match info.extents, info.widths with
       | some es, some ws =>
         if es.length ≠ ws.length then Outcome.panic "hmtx.Encode:len(GlyphExtents)!=len(Widths)"
-        else .ok (minRsbLoop ws es true 0)
+        else .ok (clamp16 (minRsbLoop ws es true 0))
       | _, _ => .ok 0) with
     | .panic s => .panic s
     | .err e => .err e
